@@ -41,7 +41,17 @@ CHECKS["C08"] = {
             "deviating first, last deviating first, first differing from all others, nothing in common, 5-byte IDs, "
             "wildcard destination), loaded through the CSV path, with the same 12 partners: every ordered subset up "
             "to the size bound that contains one of them. Telegram derivation additionally recombines, for every "
-            "chained definition, the head of one part ID with the tail of another (every split point).",
+            "chained definition, the head of one part ID with the tail of another (every split point). Edit pass: every "
+            "ordered subset of size<=2 (thorough 3) of 13 definitions (fold twins, conditional twins, chained and "
+            "direction neighbours) followed by one MessageMap::remove of a member or one add(replace=true) of any of "
+            "the 13; what is loaded afterwards is read from the name index; set semantics: a remove deletes exactly "
+            "that definition, a replacing add may only delete definitions with the same direction, destination, "
+            "command, passive source and a common complete ID (and not a twin guarded by another condition); then "
+            "the telegram sweep. Identification pass: the built-in 07 04 messages and getScanMessage(08/15) in every "
+            "order with two ordinary definitions, telegrams 07 04 with and without data: the built-in generic/"
+            "broadcast messages may be returned but are never required; when a definition of the destination group "
+            "asked for (anyDestination) matches at least as long, the other group must not be returned. Universe pin: "
+            "every CSV row of the universe must load alone (C08/universe-shrunk).",
     "assumptions": [
         "definitions are 'loaded' when the loader accepted them (duplicates rejected by MessageMap::add are not part of the state)",
         "condition evaluation itself is C13's subject: C08 uses two simple numeric conditions, sets the referenced value once per state under a virtual clock and checks isAvailable() against its model before judging",
@@ -51,9 +61,9 @@ CHECKS["C08"] = {
         "harness": "c08_find", "sources": ["engines/msgmc/c08_find.cpp"], "deps": ["engines/msgmc/c08_universe.h"],
         "variant": "plain", "libset": "core",
         "quick": {"parts": 16, "deadline": 55,
-                  "bounds": "40 unconditional definitions: all ordered subsets of size<=2 x all telegrams, size 3 x member-derived telegrams; 7 conditional + 12 partner definitions: ordered subsets of size<=3 containing a conditional one x 5 environments; 6 multi-part chained + 12 partner definitions: ordered subsets of size<=3 containing a multi-part chain; 16 flag combinations"},
+                  "bounds": "40 unconditional definitions: all ordered subsets of size<=2 x all telegrams, size 3 x member-derived telegrams; 7 conditional + 12 partner definitions: ordered subsets of size<=3 containing a conditional one x 5 environments; 6 multi-part chained + 12 partner definitions: ordered subsets of size<=3 containing a multi-part chain; edit pass: subsets of size<=2 of 13 definitions x (remove | replacing add) ; identification pass: 65 states; 16 flag combinations"},
         "thorough": {"parts": 16, "deadline": 840,
-                     "bounds": "40 definitions; all ordered subsets of size<=3 x all telegrams; size 4 over the 28-definition core x member-derived telegrams; 7 conditional + 12 partner definitions: ordered subsets of size<=4 containing a conditional one x 5 environments; 6 multi-part chained + 12 partner definitions: ordered subsets of size<=4 containing a multi-part chain; 16 flag combinations"},
+                     "bounds": "40 definitions; all ordered subsets of size<=3 x all telegrams; size 4 over the 28-definition core x member-derived telegrams; 7 conditional + 12 partner definitions: ordered subsets of size<=4 containing a conditional one x 5 environments; 6 multi-part chained + 12 partner definitions: ordered subsets of size<=4 containing a multi-part chain; edit pass: subsets of size<=3 of 13 definitions x (remove | replacing add); identification pass: 65 states; 16 flag combinations"},
     }],
 }
 
@@ -76,7 +86,11 @@ CHECKS["C09"] = {
             "gap pattern]. Inputs are valid by construction, so prepareMaster must succeed for every part; checked: "
             "header QQ ZZ PB SB (ZZ = own destination, or the destination given to prepareMaster), NN == following bytes, NN <= MAX_POS, ID and master data bytes, "
             "find(telegram) == that definition, decode(store(telegram, answer)) == supplied and received values "
-            "(compared as name=value multiset); chained: every part carries its ID and its defined number of data "
+            "(compared as name=value multiset), and every single field decoded alone by index (master part first) "
+            "and by name (+ index among equal names) gives exactly that field's value; a loaded plain definition "
+            "must not have more than MAX_POS slave data bytes; every definition that is valid by the documented "
+            "format must load (C09/universe-shrunk; known loader exceptions - explicit chain lengths with a common ID "
+            "prefix, bit fields in chains - stay counted); chained: every part carries its ID and its defined number of data "
             "bytes, the parts in order reproduce the encoded value, and after all parts arrived within a small gap "
             "(and again after a second round with other values) the decoded value is the joined one; a third round "
             "16*parts s later (first values again, parts in the order of the history) is decoded after every part: "
@@ -88,7 +102,7 @@ CHECKS["C09"] = {
     "assumptions": [
         "time() is the only clock read by message.cpp (interposed by the harness)",
         "a gap of 0 or 1 s between parts is inside, 16*parts s outside any collection window",
-        "definitions rejected by the loader are outside the statement (it only fixes what must be rejected)",
+        "definitions rejected by the loader are outside the statement except for the universe pin (valid rows of the harness grammar must load)",
     ],
     "runs": [{
         "harness": "c09_build", "sources": ["engines/msgmc/c09_build.cpp"], "deps": ["engines/msgmc/c09_grammar.h"],
@@ -130,11 +144,12 @@ CHECKS["C19"] = {
             "priority, comment, field count and per field name, part, type/length/bits, divisor, value list, "
             "constant, unit, comment, and identical decoded text of a fixed sample telegram (object attributes, not dump text); "
             "second dump == first dump; texts written by the reference encoder are loaded "
-            "unchanged. Files the loader rejects are counted, not judged. distinct = distinct quoted lines / texts "
+            "unchanged. Files the loader rejects are counted; only rejections for data that does not fit explicit chain "
+            "lengths / STR:* and for divisor signs that cannot be combined are expected, any other one is "
+            "C19/universe-shrunk. The text alphabet of (a2) and sweep 2 includes the double quote. distinct = distinct quoted lines / texts "
             "/ first-generation dumps.",
     "assumptions": [
         "leading/trailing blanks and blank-only fields are outside the statement (the reader trims)",
-        "the double quote is outside the text domain of units/comments (b); it is covered for the splitter in (a)",
         "default columns only: no access level, range column or conditions",
         "derived number types are cached process-wide (DataTypeList): sweep 3 forks one child per file before the harness process has created any derived type; sweeps 1 and 2 share one process (cache filled in enumeration order)",
     ],
